@@ -10,7 +10,8 @@ import ast
 
 from .. import cfg as cfgmod
 from ..loader import AnalysisError, unparse, call_name
-from ..dataflow import single_assign_subst, target_names, linform, lin_eq
+from ..dataflow import single_assign_subst, target_names, linform, lin_eq, resolve_expr
+from ..cfg import atomic_facts
 from ..solver_model import solver_function
 from .C10 import check_bounds
 from .C16 import discover_accessors
@@ -89,12 +90,14 @@ def order_helper(check, h):
             for c in ast.walk(n.ast):
                 if isinstance(c, ast.Call) and call_name(c) == 'remove':
                     removed_from = unparse(c.func.value)
-        guarded = False
-        for t in g.nodes:
-            if t.kind == 'test' and loop in t.loops and isinstance(t.ast, ast.Compare) and isinstance(t.ast.ops[0], ast.In) and \
-                    isinstance(t.ast.left, ast.Name) and t.ast.left.id == x and unparse(t.ast.comparators[0]) == removed_from:
-                if all(g.dominates(t, n) for n in apps + rems):
-                    guarded = True
+        def member_fact(n):
+            for test, outcome in g.conditions_at(n):
+                for _, v, e in atomic_facts(test, outcome):
+                    if v is True and isinstance(e, ast.Compare) and len(e.ops) == 1 and isinstance(e.ops[0], ast.In) and \
+                            isinstance(e.left, ast.Name) and e.left.id == x and unparse(e.comparators[0]) == removed_from:
+                        return True
+            return False
+        guarded = bool(apps + rems) and all(member_fact(n) for n in apps + rems)
         pri_ok = _is_priority(loop.iter) and paired and guarded
         pri_why = ('priority names are moved (append + remove, under membership) in SortPriority order' if pri_ok else
                    'priority loop: source=%s paired=%s membership-guard=%s' % (unparse(loop.iter), paired, guarded))
@@ -122,6 +125,19 @@ def order_helper(check, h):
     check.ob('C19.R1', '%s::rest-sorted-without-priority' % h.key, rest_ok, h.where, rest_why,
              'many names: each stored series exactly once, the rest alphabetically')
     check.ob('C19.R1', '%s::returns-priority-then-rest' % h.key, True, h.where, 'returns %s + %s' % (unparse(A), unparse(B)), '')
+
+
+def iteration_sites(fn_node):
+    """[(target names, iterated expression, scope in which the targets are bound, node)] for `for` statements and
+    comprehension generators alike"""
+    out = []
+    for n in ast.walk(fn_node):
+        if isinstance(n, ast.For):
+            out.append((target_names(n.target), n.iter, n, n))
+        elif isinstance(n, (ast.ListComp, ast.GeneratorExp, ast.SetComp)):
+            for gen in n.generators:
+                out.append((target_names(gen.target), gen.iter, n, gen))
+    return out
 
 
 def run(prog, check):
@@ -156,17 +172,21 @@ def run(prog, check):
             header_ok = True
     check.ob('C19.R2', '%s::header-from-sequence' % r.key, header_ok, r.where,
              'header row joins `%s` by tabs' % seq if header_ok else 'header is not the tab-join of the column sequence', 'any names')
-    row_loops = [n for n in ast.walk(r.node) if isinstance(n, ast.For) and isinstance(n.iter, ast.Name) and n.iter.id == seq]
+    sites = iteration_sites(r.node)
+    row_loops = [st for st in sites if isinstance(st[1], ast.Name) and st[1].id == seq]
     cell_ok = False
-    for rl in row_loops:
-        v = target_names(rl.target)[0]
-        outer = getattr(rl, '_parent', None)
-        while outer is not None and not isinstance(outer, ast.For):
-            outer = getattr(outer, '_parent', None)
+    for targets, it, scope, node in row_loops:
+        v = targets[0]
+        # the enclosing iteration over the row index
+        outer = None
+        for t2, it2, scope2, node2 in sites:
+            if node2 is not node and any(x is node or x is scope for x in ast.walk(scope2)) and \
+                    isinstance(it2, ast.Call) and call_name(it2) == 'range':
+                outer = t2
         if outer is None:
             continue
-        i = target_names(outer.target)[0]
-        for c in ast.walk(rl):
+        i = outer[0]
+        for c in ast.walk(scope):
             if isinstance(c, ast.Subscript) and isinstance(c.value, ast.Subscript) and unparse(c.value.value) == 'self' and \
                     unparse(c.value.slice) == v and unparse(c.slice) == i:
                 cell_ok = True
@@ -176,19 +196,14 @@ def run(prog, check):
     # row bound = min of lengths over all values
     bound_ok = False
     bound_txt = ''
-    for n in ast.walk(r.node):
-        if isinstance(n, ast.For) and isinstance(n.iter, ast.Call) and call_name(n.iter) == 'range':
-            hi = n.iter.args[-1] if len(n.iter.args) <= 2 else n.iter.args[1]
-            lo_ok = len(n.iter.args) == 1 or lin_eq(linform(n.iter.args[0]), {'': 0})
-            e = hi
-            for _ in range(3):
-                if isinstance(e, ast.Name) and e.id in rs:
-                    e = rs[e.id]
+    for targets_, it_, scope_, n in sites:
+        if isinstance(it_, ast.Call) and call_name(it_) == 'range':
+            hi = it_.args[-1] if len(it_.args) <= 2 else it_.args[1]
+            lo_ok = len(it_.args) == 1 or lin_eq(linform(it_.args[0]), {'': 0})
+            e = resolve_expr(hi, rs)
             bound_txt = unparse(e)
             if isinstance(e, ast.Call) and call_name(e) == 'min' and lo_ok:
                 inner = e.args[0] if e.args else None
-                if isinstance(inner, ast.Name) and inner.id in rs:
-                    inner = rs[inner.id]
                 if inner is not None and any(isinstance(c, ast.Call) and call_name(c) == 'len' for c in ast.walk(inner)) and \
                         'self' in unparse(inner):
                     bound_ok = True
